@@ -729,7 +729,8 @@ func ptInv(buf []byte, p *PTokParam, i int, flags POptFlags) bool {
 		(p.state != vpQuotedVal || (fend(p.Name) < int(p.Val.Offs) && lwsOrEq(buf, fend(p.Name), int(p.Val.Offs)) && p.Val.Len == 0 && int(p.Val.Offs) < i &&
 			buf[p.Val.Offs] == '"')) &&
 		((p.state != vpFSep && p.state != vpFNxt) || ptValDone(buf, p, flags)) &&
-		(p.state != vpFSep || (p.Val.Len > 0 && fend(p.All) <= i && lwsOnly(buf, fend(p.All), i)))
+		(p.state != vpFSep || (p.Val.Len > 0 && fend(p.All) <= i && lwsOnly(buf, fend(p.All), i))) &&
+		(p.state != vpFNxt || (fend(p.All) < i && sepOrLws(buf, fend(p.All), i, flags)))
 }
 
 // ---- URI parameter / header lists (C17) ----
@@ -794,4 +795,59 @@ func listMeasure(left, vNo int) int {
 		return 2*left + 1
 	}
 	return 2 * left
+}
+
+// ---- whole-message objects: Reset / Init (C12) ----
+
+// hvAllZero: header values as in a newly created PHdrVals (the contact array kept, its elements zero)
+func hvAllZero(hv *PHdrVals) bool {
+	return hv.From == PFromBody{} && hv.To == PFromBody{} && hv.Callid == PCallIDBody{} && hv.CSeq == PCSeqBody{} &&
+		hv.CLen == PUIntBody{} && hv.Expires == PUIntBody{} && hv.PAIs == PPAIs{} && contAllZero(&hv.Contacts)
+}
+
+// hvZeroBut: as hvAllZero, but nothing is said about the elements of the contact array (Init hands in a new one)
+func hvZeroBut(hv *PHdrVals) bool {
+	c := &hv.Contacts
+	return hv.From == PFromBody{} && hv.To == PFromBody{} && hv.Callid == PCallIDBody{} && hv.CSeq == PCSeqBody{} &&
+		hv.CLen == PUIntBody{} && hv.Expires == PUIntBody{} && hv.PAIs == PPAIs{} &&
+		c.N == 0 && c.HNo == 0 && c.MaxExpires == 0 && c.MinExpires == 0 && c.LastHVal == PField{} &&
+		c.last == PFromBody{} && c.first == PFromBody{}
+}
+
+func hlZeroBut(hl *HdrLst) bool {
+	return hl.PFlags == 0 && hl.N == 0 && hl.hdr == Hdr{} && forall(0, 13, func(k int) bool { return hl.h[k] == Hdr{} })
+}
+
+// msgZeroBut: every part of the message object as in a new one, except the three caller-supplied slices
+func msgZeroBut(m *PSIPMsg) bool {
+	return m.FL == PFLine{} && hvZeroBut(&m.PV) && hlZeroBut(&m.HL) && m.Body == PField{} && m.RawMsg == nil &&
+		m.state == 0 && m.offs == 0
+}
+
+// tokSpec: the documented character set of parameter names and token values (RFC 3261 25.1 as quoted in
+// parse_params.go): letters, digits, the unreserved marks and '%', then "[]/:+$", plus '&' for URI
+// parameters and '?' for URI headers and plain token lists. Written from the documentation, independently of
+// tokAllowedChar, which is proved equal to it.
+func tokSpec(c byte, flags POptFlags) bool {
+	if ('0' <= c && c <= '9') || ('A' <= c && c <= 'Z') || ('a' <= c && c <= 'z') {
+		return true
+	}
+	if c == '-' || c == '_' || c == '.' || c == '!' || c == '~' || c == '*' || c == '\'' || c == '(' || c == ')' || c == '%' {
+		return true
+	}
+	if c == '[' || c == ']' || c == '/' || c == ':' || c == '+' || c == '$' {
+		return true
+	}
+	if c == '&' {
+		return flags&POptTokURIParamF != 0
+	}
+	if c == '?' {
+		return flags&POptTokURIParamF == 0
+	}
+	return false
+}
+
+// sepOrLws: buf[a:b) holds only separators and linear white space
+func sepOrLws(buf []byte, a, b int, flags POptFlags) bool {
+	return forall(a, b, func(k int) bool { return isLWSc(buf[k]) || buf[k] == ptSep(flags) })
 }
